@@ -105,7 +105,7 @@ pub fn run(ctx: &Ctx, rec: &mut Recorder) -> Result<(), String> {
     let mut f = std::io::BufWriter::new(std::fs::File::create(dir.join(format!("cases-{}.jsonl", ctx.shard))).map_err(|e| e.to_string())?);
     let font_bytes = std::fs::read("/repo/test-pdfs/Roboto-Regular.ttf").map_err(|e| format!("font fixture: {e}"))?;
     let cfgs = docgen::configs();
-    let ncases = ctx.qt(1_600u64, 100_000u64);
+    let ncases = ctx.qt(1_600u64, 24_000u64);
     for c in 0..ncases {
         if !ctx.mine(c) {
             continue;
